@@ -328,6 +328,14 @@ func (cm *c01Mux) req(verb, path string) string {
 	cm.rec.method, cm.rec.msg = "", nil
 	r := httptest.NewRequest("GET", "http://verif.test/", nil)
 	r.Method = verb
+	if verb == "WS" {
+		// a WebSocket handshake: its verb is the custom kind WEBSOCKET
+		r.Method = "GET"
+		r.Header.Set("Connection", "Upgrade")
+		r.Header.Set("Upgrade", "websocket")
+		r.Header.Set("Sec-WebSocket-Version", "13")
+		r.Header.Set("Sec-WebSocket-Key", "dGhlIHNhbXBsZSBub25jZQ==")
+	}
 	r.URL.Path = path
 	r.URL.RawPath = ""
 	w := httptest.NewRecorder()
@@ -634,7 +642,7 @@ func c01Paths(r *rng, ms []c01Method, n int) []string {
 func c01ReqVerb(r *rng, ms []c01Method) string {
 	if r.intn(4) == 0 {
 		// (HTTP methods are case-sensitive tokens: "get" is not GET)
-		return r.picks([]string{"GET", "POST", "PUT", "DELETE", "PATCH", "LIST", "HEAD", "get", "Get", "post", "patch", "list", "Delete"})
+		return r.picks([]string{"GET", "POST", "PUT", "DELETE", "PATCH", "LIST", "HEAD", "get", "Get", "post", "patch", "list", "Delete", "WS", "WS"})
 	}
 	m := ms[r.intn(len(ms))]
 	if len(m.Bindings) == 0 {
